@@ -71,6 +71,10 @@ type TypeOps struct {
 	Clear          func(bus *eventbus.EventBus)
 	Pub            func(bus *eventbus.EventBus, id int)
 	PubCtx         func(bus *eventbus.EventBus, ctx context.Context, id int)
+	// PubAny publishes the same event through an interface-typed type parameter
+	// (PublishContext[any]): the bus routes by the event's dynamic type, so this is the same
+	// publish as PubCtx as far as any property is concerned.
+	PubAny func(bus *eventbus.EventBus, ctx context.Context, id int)
 	// SubCustom subscribes a fresh closure (so it has its own identity only through the
 	// returned unsubscribe function) whose body and filter are given by the harness.
 	SubCustom func(bus *eventbus.EventBus, body func(ctx context.Context, id int), filter func(id int) bool, o SubOpts) (unsub func() error, err error)
@@ -132,6 +136,9 @@ func mkOps[T Ev](idx int) *TypeOps {
 		Pub:   func(bus *eventbus.EventBus, id int) { eventbus.Publish(bus, T{ID: id}) },
 		PubCtx: func(bus *eventbus.EventBus, ctx context.Context, id int) {
 			eventbus.PublishContext(bus, ctx, T{ID: id})
+		},
+		PubAny: func(bus *eventbus.EventBus, ctx context.Context, id int) {
+			eventbus.PublishContext[any](bus, ctx, T{ID: id})
 		},
 		SubCustom: func(bus *eventbus.EventBus, body func(ctx context.Context, id int), filter func(id int) bool, o SubOpts) (func() error, error) {
 			var l []eventbus.SubscribeOption
